@@ -47,7 +47,7 @@ def run_tv(res, families, modes, known_roles=(), note="", reject_is_violation=Fa
         elif r["status"] == "compile_error":
             n_cerr += 1
             script = os.path.join(tvrun.WORK, "src", r["name"] + ".roto")
-            if reject_is_violation:
+            if reject_is_violation or ("panic" in r["reason"][:40] or "crash" in r["reason"][:40]):
                 # every program of these families is a documented spelling / a chain the documented table accepts
                 res.violation(f"{r['name']}: a program that the documented grammar accepts is rejected (or crashes the compiler): {r['reason'][:160]}",
                               {"engine": "tv-compile", "program": r["name"], "source": open(script).read(), "report": r["reason"]})
